@@ -30,6 +30,13 @@ Definition eadd (a b : ext) : ext :=
   | _, _ => NegInf
   end.
 
+(* build strategies and what _find_pivot computes for each *)
+Inductive strategy := Balanced | Fast | Random.
+Inductive prule :=
+| PMedian                        (* np.median(pts_ax) *)
+| PMedianOfSample (cap : nat)    (* np.median of min(cap, size) values drawn from pts_ax without replacement *)
+| PElement.                      (* np.random.choice(pts_ax, 1)[0] *)
+
 Record box := mkbox { lo : list ext; hi : list ext }.
 
 (* arr[i] = v on a copy *)
